@@ -125,6 +125,28 @@ pub fn stress_sources() -> Vec<(String, String)> {
             args254.join(", ")
         ),
     ));
+    // beyond the 255-argument limit: must be rejected the same way in every build, never truncated
+    for n in [256usize, 257, 300, 511, 512].iter() {
+        let a: Vec<String> = (0..*n).map(|i| i.to_string()).collect();
+        let f: String = std::iter::repeat("~").take(*n).collect();
+        v.push((format!("print-{}-args", n), format!("print(\"start\\n\");\nprint(\"{}\\n\", {});\n", f, a.join(", "))));
+        let ps: Vec<String> = (0..*n).map(|i| format!("p{}", i)).collect();
+        v.push((format!("call-{}-args", n), format!("function wide({}) -> p0 + p{};\nprint(\"start\\n\");\nprint(\"~\\n\", wide({}));\n", ps.join(", "), n - 1, a.join(", "))));
+    }
+    // README: a `let` in an array size is visible afterwards, also with a per-element initializer
+    v.push((
+        "readme-array-size-let".into(),
+        "let a = array(let size = 3, begin size * 2 end);\nprint(\"~ ~\\n\", size, a);\nlet b = array(let n2 = 2, null);\nprint(\"~ ~\\n\", n2, b);\nfunction f() -> begin let c = array(let m = 2, begin m end); m + c[1] end;\nprint(\"~\\n\", f());\nlet i = 1;\nlet c = array(4, begin let x = i; i <- i + 1; x end);\nprint(\"~ ~\\n\", c, i);\n".into(),
+    ));
+    // several zero-length arrays and empty objects
+    v.push(("empty-allocations".into(), "let k = 0; while k < 3 do begin array(0, k); array(0, begin k end); object begin end; k <- k + 1 end;\nprint(\"~ ~ ~\\n\", array(0, 1), array(0, begin 2 end), object begin end);\n".into()));
+    // user-defined methods that carry the Feeny names of built-ins
+    v.push((
+        "methods-named-like-builtins".into(),
+        "let o = object begin let t = 40; function add(x) -> this.t + x; function eq(x) -> this.t == x; function and(x) -> x; function get(i) -> i; function mod(x) -> 1; function neq(x) -> 2; function or(x) -> 3; function lt(x) -> 4; end;\nprint(\"~ ~ ~ ~ ~ ~ ~ ~\\n\", o.add(2), o.eq(40), o.and(7), o.get(9), o.mod(1), o.neq(1), o.or(1), o.lt(1));\nlet p = object extends 5 begin function add(x) -> 100; end;\nprint(\"~ ~\\n\", p.add(1), p + 1);\n".into(),
+    ));
+    // shared but acyclic values printed several times in one print
+    v.push(("shared-values".into(), "let leaf = object begin let v = 1; end;\nlet pair = array(3, leaf);\nlet top = object begin let a = pair; let b = pair; let c = leaf; end;\nprint(\"~ ~ ~\\n\", top, pair, array(2, top));\n".into()));
     // many labels: 300 conditionals and loops in sequence and nested
     let mut s = String::from("let acc = 0;\n");
     for i in 0..300 {
